@@ -109,6 +109,16 @@ static void scen(int variant)
     calls = 4;
     break;
   }
+  case 9: // F10: an aborted call, then the same Future started again without abort: the old request must not leak into the new call
+  {
+    installPool(1, 3, 2);
+    Future<int> f; f.start(work0, 7); f.abort(); f.join();
+    checkState(f, true, "F10 first call");
+    f.start(work1, 2); int r1 = f; checkCall(1, 2, r1, "conversion after an aborted call"); checkState(f, false, "F10 second call");
+    vf_outcome("aborted=%d finished=%d", (int)f.isAborted(), (int)f.isFinished());
+    calls = 2;
+    break;
+  }
   case 8: // F9: grow to three workers, then idle periods with one call each: the pool retires workers one by one but must keep serving
   {
     installPool(0, 3, 2);
@@ -143,5 +153,5 @@ static void scen(int variant)
 
 extern "C" int vf_scenario_count(void) { return 1; }
 extern "C" const char* vf_scenario_name(int) { return "future"; }
-extern "C" int vf_scenario_variants(int) { return 9; }
+extern "C" int vf_scenario_variants(int) { return 10; }
 extern "C" void vf_scenario_run(int, int variant) { scen(variant); }
